@@ -214,6 +214,8 @@ def gen_cases(run):
         cases.append(("adopted", G.adopt_case(rng, "ad%d" % i, nbpus=rng.choice([4, 8, 16]))))
     for i in range(1500 if thorough else 200):
         cases.append(("re-register", G.reregister_case(rng, "rr%d" % i, nbpus=rng.choice([4, 8, 16]))))
+    for i in range(1500 if thorough else 200):
+        cases.append(("no-cpukinds-flag", G.nocpukinds_case(rng, "nk%d" % i)))
     for i in range(3000 if thorough else 350):
         cases.append(("numa-restrict-flags", G.numa_case(rng, "nu%d" % i)))
     cases += snapshot_cases(run)
